@@ -65,6 +65,16 @@ Step ==
         /\ l' = l + 1 /\ cnt' = 0 /\ left' = FALSE
         /\ taint' = IF r.op \in {"cpu_reset", "master_reset", "set_limits"} THEN FALSE
                     ELSE IF r.op = "edge" THEN (taint \/ StopWins(m)) ELSE taint
+     \/ /\ r.op = "newm"                      \* Machine::new(config) / Machine::new_with_program(config, program): computed, not adopted
+        /\ LET c == r.a.cfg
+               cf == [inr |-> [k \in 0..3 |-> c.inr[k + 1]], di1 |-> c.di1, temp |-> c.temp, j1 |-> c.j1, j2 |-> c.j2,
+                      ai1 |-> c.ai1, ai2 |-> c.ai2, uio1 |-> c.uio1, uio2 |-> c.uio2, uio3 |-> c.uio3]
+           IN m' = IF r.a.prog = 1 THEN NewWithProgramF(cf, r.a.image, r.a.ss, r.a.ps) ELSE ApplyConfigF(MachineInit, cf)
+        /\ mode' = "Real" /\ MatchFull(m', mode', r.s)
+        /\ l' = l + 1 /\ cnt' = 0 /\ left' = FALSE /\ taint' = FALSE
+     \/ /\ r.op = "load_raw"
+        /\ m' = LoadRawF(m, r.a.image) /\ mode' = mode /\ MatchFull(m', mode', r.s)
+        /\ l' = l + 1 /\ cnt' = 0 /\ left' = FALSE /\ taint' = FALSE
      \/ /\ r.op = "probe"                     \* a reset / load applied to a clone: the history machine is unchanged
         /\ LET pr == CASE r.a.kind = "cpu_reset" -> CpuResetF(m)
                        [] r.a.kind = "master_reset" -> MasterResetF(m)
